@@ -2,17 +2,27 @@
 #include "sha2.hpp"
 #include "stream.hpp"
 #include "poly1305.hpp"
-#if __has_include("selftest_extra.hpp")
-#include "selftest_extra.hpp"
-#endif
+#include "codecs.hpp"
+#include "aes.hpp"
+#include "aes256gcm.hpp"
+#include "aegis.hpp"
+#include "selftest_curves.hpp"
+#include "blake2b.hpp"
+#include "argon2.hpp"
+#include "scrypt.hpp"
 int main() {
     int f = 0;
     f += ref::selftest_sha2();
     f += ref::selftest_stream();
     f += ref::selftest_poly1305();
-#ifdef REF_SELFTEST_EXTRA
-    f += ref::selftest_extra();
-#endif
+    f += ref::selftest_codecs();
+    f += ref::selftest_aes();
+    f += ref::selftest_aes256gcm();
+    f += ref::selftest_aegis();
+    f += ref::selftest_curves();
+    f += ref::selftest_blake2b();
+    f += ref::selftest_argon2();
+    f += ref::selftest_scrypt();
     printf("reference-model selftest: %d failures\n", f);
     return f ? 1 : 0;
 }
